@@ -29,34 +29,721 @@ structure Sim (m : MCfg) (s : SCfg) : Prop where
 /-- every list object of the world is well formed (represents *some* list) -/
 def MInv (m : MCfg) : Prop := ∀ l, ∃ SL, Rep (m.lists l) SL m.nextId
 
+/-! ### inversion of the stack relation -/
+
+theorem StackSim.nil_inv {m s ss} (h : StackSim m s [] ss) : ss = [] := by
+  cases h; rfl
+
+theorem StackSim.cons_inv {m s a as ss} (h : StackSim m s (a :: as) ss) :
+    ∃ b bs, ss = b :: bs ∧ FrameSim m s a b ∧ StackSim m s as bs := by
+  cases h with
+  | cons hf ht => exact ⟨_, _, rfl, hf, ht⟩
+
+theorem FrameSim.prog_inv {m s p b} (h : FrameSim m s (.prog p) b) : b = .prog p := by
+  cases h; rfl
+
+theorem FrameSim.wait_inv {m s k b} (h : FrameSim m s (.wait k) b) : b = .wait k := by
+  cases h; rfl
+
+theorem FrameSim.iter_inv {m s l n cap arg honour b} (h : FrameSim m s (.iter l n cap arg honour) b) :
+    ∃ rest, b = .iter l rest arg honour ∧ FrameOK (m.lists l) (s.lists l) m.nextId n cap rest := by
+  cases h with
+  | iter _ _ _ _ _ rest ok => exact ⟨rest, rfl, ok⟩
+
+theorem StackSim.length_eq {m s ms ss} (h : StackSim m s ms ss) : ms.length = ss.length := by
+  induction h with
+  | nil => rfl
+  | cons _ _ ih => simp [ih]
+
+theorem StackSim.isEmpty_eq {m s ms ss} (h : StackSim m s ms ss) : ms.isEmpty = ss.isEmpty := by
+  cases h <;> rfl
+
+/-- the stack relation reads the configurations only through the list objects that have a
+    running traversal, and the id bound -/
+theorem StackSim.transport {m s m' s'} {ms ss} (h : StackSim m s ms ss)
+    (H : ∀ l n cap rest, busyOn MFrame.isIterOn ms l = true →
+      FrameOK (m.lists l) (s.lists l) m.nextId n cap rest →
+      FrameOK (m'.lists l) (s'.lists l) m'.nextId n cap rest) :
+    StackSim m' s' ms ss := by
+  induction h with
+  | nil => exact .nil
+  | cons hf _ ih =>
+    refine .cons ?_ (ih ?_)
+    · cases hf with
+      | prog p => exact .prog p
+      | wait k => exact .wait k
+      | iter l n cap arg honour rest ok =>
+        exact .iter _ _ _ _ _ _ (H l n cap rest (by simp [busyOn, MFrame.isIterOn]) ok)
+    · intro l n cap rest hb
+      exact H l n cap rest (by simp only [busyOn, List.any_cons] at hb ⊢; simp [hb])
+
+theorem StackSim.congr {m s m' s'} {ms ss} (h : StackSim m s ms ss)
+    (hl : m'.lists = m.lists) (hsl : s'.lists = s.lists) (hn : m'.nextId = m.nextId) :
+    StackSim m' s' ms ss :=
+  h.transport (fun l n cap rest _ ok => by rw [hl, hsl, hn]; exact ok)
+
+theorem StackSim.busyOn_eq {m s ms ss} (h : StackSim m s ms ss) (l : Nat) :
+    busyOn MFrame.isIterOn ms l = busyOn SFrame.isIterOn ss l := by
+  induction h with
+  | nil => rfl
+  | cons hf _ ih =>
+    simp only [busyOn, List.any_cons] at ih ⊢
+    rw [ih]
+    cases hf <;> simp [MFrame.isIterOn, SFrame.isIterOn]
+
+theorem foreign_eq {m : MCfg} {s : SCfg} (nl : m.nlists = s.nlists)
+    (rep : ∀ l, Rep (m.lists l) (s.lists l) m.nextId) (l : Nat) (h : Hd) :
+    m.foreign l h = s.foreign l h := by
+  unfold MCfg.foreign SCfg.foreign
+  rw [nl]
+  congr 1
+  funext l'
+  have := rep_present (rep l') h
+  rw [← this]
+  generalize ((m.lists l').heap h).counter = c
+  cases c <;> simp
+
+/-- the simulation relation with the stacks as parameters -/
+structure SimOn (m : MCfg) (s : SCfg) (ms : List MFrame) (ss : List SFrame) : Prop where
+  nextId : m.nextId = s.nextId
+  nlists : m.nlists = s.nlists
+  trace : m.trace = s.trace
+  rep : ∀ l, Rep (m.lists l) (s.lists l) m.nextId
+  stack : StackSim m s ms ss
+
+theorem Sim.on {m s} (h : Sim m s) : SimOn m s m.stack s.stack := ⟨h.1, h.2, h.3, h.4, h.5⟩
+
+theorem SimOn.sub {m s ms ss ms' ss'} (h : SimOn m s ms ss) (h' : StackSim m s ms' ss') :
+    SimOn m s ms' ss' := ⟨h.1, h.2, h.3, h.4, h'⟩
+
+/-- a new configuration with the same list objects -/
+theorem SimOn.toSim {m s ms ss} (h : SimOn m s ms ss) {m' : MCfg} {s' : SCfg}
+    (hl : m'.lists = m.lists) (hsl : s'.lists = s.lists)
+    (hn : m'.nextId = m.nextId) (hsn : s'.nextId = s.nextId)
+    (nl : m'.nlists = m.nlists) (snl : s'.nlists = s.nlists)
+    (tr : m'.trace = s'.trace) (hst : StackSim m s m'.stack s'.stack) : Sim m' s' where
+  nextId := by rw [hn, hsn]; exact h.nextId
+  nlists := by rw [nl, snl]; exact h.nlists
+  trace := tr
+  rep := fun l => by rw [hl, hsl, hn]; exact h.rep l
+  stack := hst.congr hl hsl hn
+
+/-! ### what `deliver` and `seekCall` leave alone -/
+
+namespace MCfg
+@[simp] theorem deliver_lists (c : MCfg) (r st) : (c.deliver r st).lists = c.lists := by
+  unfold deliver; split <;> rfl
+@[simp] theorem deliver_nextId (c : MCfg) (r st) : (c.deliver r st).nextId = c.nextId := by
+  unfold deliver; split <;> rfl
+@[simp] theorem deliver_nlists (c : MCfg) (r st) : (c.deliver r st).nlists = c.nlists := by
+  unfold deliver; split <;> rfl
+@[simp] theorem deliver_wraps (c : MCfg) (r st) : (c.deliver r st).wraps = c.wraps := by
+  unfold deliver; split <;> rfl
+@[simp] theorem seekCall_lists (beh) (c : MCfg) (l st cap arg ho bl) :
+    (seekCall beh c l st cap arg ho bl).lists = c.lists := by
+  unfold seekCall; split <;> simp
+@[simp] theorem seekCall_nextId (beh) (c : MCfg) (l st cap arg ho bl) :
+    (seekCall beh c l st cap arg ho bl).nextId = c.nextId := by
+  unfold seekCall; split <;> simp
+@[simp] theorem seekCall_nlists (beh) (c : MCfg) (l st cap arg ho bl) :
+    (seekCall beh c l st cap arg ho bl).nlists = c.nlists := by
+  unfold seekCall; split <;> simp
+@[simp] theorem seekCall_wraps (beh) (c : MCfg) (l st cap arg ho bl) :
+    (seekCall beh c l st cap arg ho bl).wraps = c.wraps := by
+  unfold seekCall; split <;> simp
+
+/-- the shape of a command step -/
+def applyStep (c : MCfg) (cmd : Cmd) (k : Res → Prog) (rest : List MFrame) : MCfg :=
+  { (c.apply (busyOn MFrame.isIterOn rest) cmd).1 with
+    stack := .prog (k (c.apply (busyOn MFrame.isIterOn rest) cmd).2) :: rest
+    trace := .res (c.apply (busyOn MFrame.isIterOn rest) cmd).2 ::
+      (c.apply (busyOn MFrame.isIterOn rest) cmd).1.trace }
+
+theorem step_nil {beh} {c : MCfg} (h : c.stack = []) : step beh c = none := by
+  unfold step; rw [h]
+theorem step_wait {beh} {c : MCfg} {k rest} (h : c.stack = .wait k :: rest) : step beh c = none := by
+  unfold step; rw [h]
+theorem step_iter {beh} {c : MCfg} {l n cap arg ho rest} (h : c.stack = .iter l n cap arg ho :: rest) :
+    step beh c = none := by
+  unfold step; rw [h]
+theorem step_ret_iter {beh} {c : MCfg} {v l n cap arg honour below}
+    (h : c.stack = .prog (.ret v) :: .iter l n cap arg honour :: below) :
+    step beh c = if honour && !v then some (c.deliver (finishRes honour false) below)
+      else some (seekCall beh c l ((c.lists l).heap n).next cap arg honour below) := by
+  unfold step; rw [h]
+theorem step_ret_nil {beh} {c : MCfg} {v} (h : c.stack = [.prog (.ret v)]) :
+    step beh c = some { c with stack := [] } := by
+  unfold step; rw [h]
+theorem step_ret_prog {beh} {c : MCfg} {v p rest} (h : c.stack = .prog (.ret v) :: .prog p :: rest) :
+    step beh c = some { c with stack := .prog p :: rest } := by
+  unfold step; rw [h]
+theorem step_ret_wait {beh} {c : MCfg} {v k rest} (h : c.stack = .prog (.ret v) :: .wait k :: rest) :
+    step beh c = some { c with stack := .wait k :: rest } := by
+  unfold step; rw [h]
+theorem step_invoke {beh} {c : MCfg} {l arg k rest} (h : c.stack = .prog (.op (.invoke l arg) k) :: rest) :
+    step beh c = some (seekCall beh c l (c.lists l).head (c.lists l).cur arg false (.wait k :: rest)) := by
+  unfold step; rw [h]
+theorem step_enum {beh} {c : MCfg} {l arg k rest} (h : c.stack = .prog (.op (.enum l arg) k) :: rest) :
+    step beh c = some (seekCall beh c l (c.lists l).head (c.lists l).cur arg true (.wait k :: rest)) := by
+  unfold step; rw [h]
+theorem step_op {beh} {c : MCfg} {cmd k rest} (h : c.stack = .prog (.op cmd k) :: rest)
+    (h1 : ∀ l a, cmd ≠ .invoke l a) (h2 : ∀ l a, cmd ≠ .enum l a) :
+    step beh c = some (c.applyStep cmd k rest) := by
+  unfold step; rw [h]
+  cases cmd <;> first | rfl | exact absurd rfl (h1 _ _) | exact absurd rfl (h2 _ _)
+end MCfg
+
+namespace SCfg
+@[simp] theorem deliver_lists (c : SCfg) (r st) : (c.deliver r st).lists = c.lists := by
+  unfold deliver; split <;> rfl
+@[simp] theorem deliver_nextId (c : SCfg) (r st) : (c.deliver r st).nextId = c.nextId := by
+  unfold deliver; split <;> rfl
+@[simp] theorem deliver_nlists (c : SCfg) (r st) : (c.deliver r st).nlists = c.nlists := by
+  unfold deliver; split <;> rfl
+@[simp] theorem seekCall_lists (beh) (c : SCfg) (l snap arg ho bl) :
+    (seekCall beh c l snap arg ho bl).lists = c.lists := by
+  unfold seekCall; split <;> simp
+@[simp] theorem seekCall_nextId (beh) (c : SCfg) (l snap arg ho bl) :
+    (seekCall beh c l snap arg ho bl).nextId = c.nextId := by
+  unfold seekCall; split <;> simp
+@[simp] theorem seekCall_nlists (beh) (c : SCfg) (l snap arg ho bl) :
+    (seekCall beh c l snap arg ho bl).nlists = c.nlists := by
+  unfold seekCall; split <;> simp
+
+def applyStep (c : SCfg) (cmd : Cmd) (k : Res → Prog) (rest : List SFrame) : SCfg :=
+  { (c.apply (busyOn SFrame.isIterOn rest) cmd).1 with
+    stack := .prog (k (c.apply (busyOn SFrame.isIterOn rest) cmd).2) :: rest
+    trace := .res (c.apply (busyOn SFrame.isIterOn rest) cmd).2 ::
+      (c.apply (busyOn SFrame.isIterOn rest) cmd).1.trace }
+
+theorem step_nil {beh} {c : SCfg} (h : c.stack = []) : step beh c = none := by
+  unfold step; rw [h]
+theorem step_wait {beh} {c : SCfg} {k rest} (h : c.stack = .wait k :: rest) : step beh c = none := by
+  unfold step; rw [h]
+theorem step_iter {beh} {c : SCfg} {l sn arg ho rest} (h : c.stack = .iter l sn arg ho :: rest) :
+    step beh c = none := by
+  unfold step; rw [h]
+theorem step_ret_iter {beh} {c : SCfg} {v l snap arg honour below}
+    (h : c.stack = .prog (.ret v) :: .iter l snap arg honour :: below) :
+    step beh c = if honour && !v then some (c.deliver (MCfg.finishRes honour false) below)
+      else some (seekCall beh c l snap arg honour below) := by
+  unfold step; rw [h]
+theorem step_ret_nil {beh} {c : SCfg} {v} (h : c.stack = [.prog (.ret v)]) :
+    step beh c = some { c with stack := [] } := by
+  unfold step; rw [h]
+theorem step_ret_prog {beh} {c : SCfg} {v p rest} (h : c.stack = .prog (.ret v) :: .prog p :: rest) :
+    step beh c = some { c with stack := .prog p :: rest } := by
+  unfold step; rw [h]
+theorem step_ret_wait {beh} {c : SCfg} {v k rest} (h : c.stack = .prog (.ret v) :: .wait k :: rest) :
+    step beh c = some { c with stack := .wait k :: rest } := by
+  unfold step; rw [h]
+theorem step_invoke {beh} {c : SCfg} {l arg k rest} (h : c.stack = .prog (.op (.invoke l arg) k) :: rest) :
+    step beh c = some (seekCall beh c l (c.lists l) arg false (.wait k :: rest)) := by
+  unfold step; rw [h]
+theorem step_enum {beh} {c : SCfg} {l arg k rest} (h : c.stack = .prog (.op (.enum l arg) k) :: rest) :
+    step beh c = some (seekCall beh c l (c.lists l) arg true (.wait k :: rest)) := by
+  unfold step; rw [h]
+theorem step_op {beh} {c : SCfg} {cmd k rest} (h : c.stack = .prog (.op cmd k) :: rest)
+    (h1 : ∀ l a, cmd ≠ .invoke l a) (h2 : ∀ l a, cmd ≠ .enum l a) :
+    step beh c = some (c.applyStep cmd k rest) := by
+  unfold step; rw [h]
+  cases cmd <;> first | rfl | exact absurd rfl (h1 _ _) | exact absurd rfl (h2 _ _)
+end SCfg
+
+/-! ### traversal steps -/
+
+theorem sim_deliver {m s below sbelow} (h : SimOn m s below sbelow) (r : Res) :
+    Sim (m.deliver r below) (s.deliver r sbelow) := by
+  have hst := h.stack
+  cases hst with
+  | nil => exact h.toSim rfl rfl rfl rfl rfl rfl h.trace .nil
+  | cons hf ht =>
+    cases hf with
+    | prog p => exact h.toSim rfl rfl rfl rfl rfl rfl h.trace (.cons (.prog p) ht)
+    | wait k =>
+      exact h.toSim rfl rfl rfl rfl rfl rfl (by simp [MCfg.deliver, SCfg.deliver, h.trace])
+        (.cons (.prog _) ht)
+    | iter l n cap arg honour rest ok =>
+      exact h.toSim rfl rfl rfl rfl rfl rfl h.trace (.cons (.iter _ _ _ _ _ _ ok) ht)
+
+theorem sim_seekCall (beh : Beh) {m s below sbelow} (h : SimOn m s below sbelow)
+    (l : Nat) (start : Option Nat) (cap arg : Nat) (honour : Bool) (snap : List Entry)
+    (H : match snap.dropWhile (fun e => !(s.lists l).present e.id) with
+      | [] => seek (m.lists l).heap cap (m.nextId + 1) start = none
+      | e :: es => seek (m.lists l).heap cap (m.nextId + 1) start = some e.id ∧
+          ((m.lists l).heap e.id).cb = e.cb ∧
+          FrameOK (m.lists l) (s.lists l) m.nextId e.id cap es) :
+    Sim (MCfg.seekCall beh m l start cap arg honour below)
+      (SCfg.seekCall beh s l snap arg honour sbelow) := by
+  unfold MCfg.seekCall SCfg.seekCall MCfg.fuel
+  cases hd : snap.dropWhile (fun e => !(s.lists l).present e.id) with
+  | nil =>
+    rw [hd] at H
+    simp only [H]
+    exact sim_deliver h _
+  | cons e es =>
+    rw [hd] at H
+    obtain ⟨h1, h2, h3⟩ := H
+    simp only [h1, h2]
+    refine h.toSim rfl rfl rfl rfl rfl rfl ?_ ?_
+    · simp [h.trace]
+    · show StackSim m s (_ :: _ :: below) (_ :: _ :: sbelow)
+      rw [h.trace]
+      exact .cons (.prog _) (.cons (.iter _ _ _ _ _ _ h3) h.stack)
+
+/-! ### commands -/
+
+theorem SimOn.update {m s ms ss} (h : SimOn m s ms ss) {m' : MCfg} {s' : SCfg}
+    (hn : m'.nextId = s'.nextId)
+    (nl : m'.nlists = m.nlists) (snl : s'.nlists = s.nlists)
+    (tr : m'.trace = m.trace) (str : s'.trace = s.trace)
+    (hr : ∀ l, Rep (m'.lists l) (s'.lists l) m'.nextId)
+    (hf : ∀ l n cap rest, busyOn MFrame.isIterOn ms l = true →
+      FrameOK (m.lists l) (s.lists l) m.nextId n cap rest →
+      FrameOK (m'.lists l) (s'.lists l) m'.nextId n cap rest) : SimOn m' s' ms ss where
+  nextId := hn
+  nlists := by rw [nl, snl]; exact h.nlists
+  trace := by rw [tr, str]; exact h.trace
+  rep := hr
+  stack := h.stack.transport hf
+
+/-- only list `l` changes -/
+theorem SimOn.upd1 {m s ms ss} (h : SimOn m s ms ss) {m' : MCfg} {s' : SCfg} (l : Nat) (x : CL) (y : SList)
+    (hml : ∀ l', m'.lists l' = if l' = l then x else m.lists l')
+    (hsl : ∀ l', s'.lists l' = if l' = l then y else s.lists l')
+    (hn : m'.nextId = s'.nextId) (hb : m.nextId ≤ m'.nextId)
+    (nl : m'.nlists = m.nlists) (snl : s'.nlists = s.nlists)
+    (tr : m'.trace = m.trace) (str : s'.trace = s.trace)
+    (hr : Rep x y m'.nextId)
+    (hf : ∀ n cap rest, busyOn MFrame.isIterOn ms l = true →
+      FrameOK (m.lists l) (s.lists l) m.nextId n cap rest → FrameOK x y m'.nextId n cap rest) :
+    SimOn m' s' ms ss := by
+  refine h.update hn nl snl tr str ?_ ?_
+  · intro l'
+    rw [hml, hsl]
+    split
+    · exact hr
+    · exact (h.rep l').mono hb
+  · intro l' n cap rest hbusy ok
+    rw [hml, hsl]
+    split
+    · next e => subst e; exact hf n cap rest hbusy ok
+    · exact ok.mono hb
+
+/-- the statement about one command -/
+def ApplyGoal (m : MCfg) (s : SCfg) (ms : List MFrame) (ss : List SFrame) (cmd : Cmd) : Prop :=
+  (m.apply (busyOn MFrame.isIterOn ms) cmd).2 = (s.apply (busyOn SFrame.isIterOn ss) cmd).2 ∧
+  ((m.apply (busyOn MFrame.isIterOn ms) cmd).1.wraps = m.wraps →
+    SimOn (m.apply (busyOn MFrame.isIterOn ms) cmd).1 (s.apply (busyOn SFrame.isIterOn ss) cmd).1 ms ss)
+
+theorem willWrap_of_wraps {w : Nat} {b : Bool} (h : w + (if b = true then 1 else 0) = w) : b = false := by
+  cases b <;> simp_all
+
+theorem sim_apply_append {m s ms ss} (h : SimOn m s ms ss) (l : Nat) (cb : Cb) :
+    ApplyGoal m s ms ss (.append l cb) := by
+  refine ⟨by simp [MCfg.apply, SCfg.apply, h.nextId], fun hw => ?_⟩
+  have nw : (m.lists l).willWrap = false := willWrap_of_wraps hw
+  refine h.upd1 l ((m.lists l).append (m.nextId + 1) m.nextId cb) ((s.lists l).append m.nextId cb)
+    (fun l' => upd_get _ _ _ _) (fun l' => by rw [h.nextId]; exact upd_get _ _ _ _)
+    (by simp [MCfg.apply, SCfg.apply, h.nextId]) (Nat.le_succ _) rfl rfl rfl rfl
+    (rep_append (h.rep l) cb) (fun n cap rest _ ok => frame_append (h.rep l) ok nw cb)
+
+theorem sim_apply_prepend {m s ms ss} (h : SimOn m s ms ss) (l : Nat) (cb : Cb) :
+    ApplyGoal m s ms ss (.prepend l cb) := by
+  refine ⟨by simp [MCfg.apply, SCfg.apply, h.nextId], fun hw => ?_⟩
+  have nw : (m.lists l).willWrap = false := willWrap_of_wraps hw
+  refine h.upd1 l ((m.lists l).prepend (m.nextId + 1) m.nextId cb) ((s.lists l).prepend m.nextId cb)
+    (fun l' => upd_get _ _ _ _) (fun l' => by rw [h.nextId]; exact upd_get _ _ _ _)
+    (by simp [MCfg.apply, SCfg.apply, h.nextId]) (Nat.le_succ _) rfl rfl rfl rfl
+    (rep_prepend (h.rep l) cb) (fun n cap rest _ ok => frame_prepend (h.rep l) ok nw cb)
+
+theorem sim_apply_insert {m s ms ss} (h : SimOn m s ms ss) (l : Nat) (cb : Cb) (b : Hd) :
+    ApplyGoal m s ms ss (.insert l cb b) := by
+  have hfor := foreign_eq h.nlists h.rep l b
+  unfold ApplyGoal
+  simp only [MCfg.apply, SCfg.apply, ← hfor]
+  cases hfb : m.foreign l b with
+  | true => exact ⟨rfl, fun _ => h⟩
+  | false =>
+    refine ⟨by simp [h.nextId], fun hw => ?_⟩
+    have nw : (m.lists l).willWrap = false := willWrap_of_wraps hw
+    refine h.upd1 l ((m.lists l).insert (m.nextId + 1) m.nextId cb b) ((s.lists l).insert m.nextId cb b)
+      (fun l' => upd_get _ _ _ _) (fun l' => by rw [h.nextId]; exact upd_get _ _ _ _)
+      (by simp [h.nextId]) (Nat.le_succ _) rfl rfl rfl rfl
+      (rep_insert (h.rep l) cb b) (fun n cap rest _ ok => frame_insert (h.rep l) ok nw cb b)
+
+theorem sim_apply_remove {m s ms ss} (h : SimOn m s ms ss) (l : Nat) (hd : Hd) :
+    ApplyGoal m s ms ss (.remove l hd) := by
+  have hfor := foreign_eq h.nlists h.rep l hd
+  unfold ApplyGoal
+  simp only [MCfg.apply, SCfg.apply, ← hfor]
+  cases hfb : m.foreign l hd with
+  | true => exact ⟨rfl, fun _ => h⟩
+  | false =>
+    have hr := rep_remove (h.rep l) hd
+    refine ⟨by simp [hr.2], fun _ => ?_⟩
+    exact h.upd1 l ((m.lists l).remove hd).1 ((s.lists l).remove hd).1
+      (fun l' => upd_get _ _ _ _) (fun l' => upd_get _ _ _ _)
+      h.nextId (Nat.le_refl _) rfl rfl rfl rfl
+      hr.1 (fun n cap rest _ ok => frame_remove (h.rep l) ok hd)
+
+theorem sim_apply_owns {m s ms ss} (h : SimOn m s ms ss) (l : Nat) (hd : Hd) :
+    ApplyGoal m s ms ss (.owns l hd) := by
+  have hfor := foreign_eq h.nlists h.rep l hd
+  unfold ApplyGoal
+  simp only [MCfg.apply, SCfg.apply, ← hfor]
+  cases hfb : m.foreign l hd with
+  | true => exact ⟨rfl, fun _ => h⟩
+  | false =>
+    exact ⟨by simp [MCfg.fuel, rep_owns (h.rep l) hd], fun _ => h⟩
+
+theorem sim_apply_empty {m s ms ss} (h : SimOn m s ms ss) (l : Nat) :
+    ApplyGoal m s ms ss (.empty l) :=
+  ⟨by simp [MCfg.apply, SCfg.apply, rep_isEmpty (h.rep l)], fun _ => h⟩
+
+theorem sim_apply_setCounter {m s ms ss} (h : SimOn m s ms ss) (l k : Nat) :
+    ApplyGoal m s ms ss (.setCounter l k) := by
+  refine ⟨rfl, fun _ => ?_⟩
+  exact h.upd1 l _ (s.lists l)
+    (fun l' => upd_get _ _ _ _) (fun l' => by show s.lists l' = _; split <;> simp [*])
+    h.nextId (Nat.le_refl _) rfl rfl rfl rfl
+    (rep_setCounter (h.rep l) k) (fun n cap rest _ ok => frame_setCounter (h.rep l) ok k)
+
+theorem sim_apply_copyAssign {m s ms ss} (h : SimOn m s ms ss) (dst src : Nat) :
+    ApplyGoal m s ms ss (.copyAssign dst src) := by
+  have hb := h.stack.busyOn_eq
+  unfold ApplyGoal
+  simp only [MCfg.apply, SCfg.apply, ← hb]
+  by_cases hc : dst = src ∨ busyOn MFrame.isIterOn ms dst = true ∨ busyOn MFrame.isIterOn ms src = true
+  · simp only [if_pos hc]
+    exact ⟨trivial, fun _ => h⟩
+  · simp only [if_neg hc]
+    refine ⟨trivial, fun _ => ?_⟩
+    have hcl := rep_clone (h.rep src)
+    have hnb : ¬ busyOn MFrame.isIterOn ms dst = true := fun hh => hc (Or.inr (Or.inl hh))
+    refine h.upd1 dst ((m.lists src).clone (m.nextId + 1) m.nextId) ((s.lists src).cloneWith m.nextId)
+      (fun l' => upd_get _ _ _ _) (fun l' => by rw [h.nextId]; exact upd_get _ _ _ _)
+      ?_ (Nat.le_add_right _ _) rfl rfl rfl rfl ?_ (fun n cap rest hbusy _ => absurd hbusy hnb)
+    · show m.nextId + _ = s.nextId + _
+      rw [MCfg.fuel, hcl.2, h.nextId]
+    · show Rep _ _ (m.nextId + _)
+      rw [MCfg.fuel, hcl.2]
+      exact hcl.1
+
+theorem sim_apply_moveAssign {m s ms ss} (h : SimOn m s ms ss) (dst src : Nat) :
+    ApplyGoal m s ms ss (.moveAssign dst src) := by
+  have hb := h.stack.busyOn_eq
+  unfold ApplyGoal
+  simp only [MCfg.apply, SCfg.apply, ← hb]
+  by_cases hc : dst = src ∨ busyOn MFrame.isIterOn ms dst = true ∨ busyOn MFrame.isIterOn ms src = true
+  · simp only [if_pos hc]
+    exact ⟨trivial, fun _ => h⟩
+  · simp only [if_neg hc]
+    refine ⟨trivial, fun _ => ?_⟩
+    refine h.update h.nextId rfl rfl rfl rfl ?_ ?_
+    · intro l
+      show Rep (upd (upd m.lists dst (m.lists src)) src _ l) (upd (upd s.lists dst (s.lists src)) src [] l) m.nextId
+      rw [upd_get, upd_get, upd_get, upd_get]
+      split
+      · exact rep_moved_from (h.rep src)
+      · split
+        · exact h.rep src
+        · exact h.rep l
+    · intro l n cap rest hbusy ok
+      show FrameOK (upd (upd m.lists dst (m.lists src)) src _ l)
+        (upd (upd s.lists dst (s.lists src)) src [] l) m.nextId n cap rest
+      have h1 : l ≠ src := fun e => hc (Or.inr (Or.inr (e ▸ hbusy)))
+      have h2 : l ≠ dst := fun e => hc (Or.inr (Or.inl (e ▸ hbusy)))
+      rw [upd_get, upd_get, upd_get, upd_get, if_neg h1, if_neg h2, if_neg h1, if_neg h2]
+      exact ok
+
+theorem sim_apply_swap {m s ms ss} (h : SimOn m s ms ss) (a b : Nat) :
+    ApplyGoal m s ms ss (.swap a b) := by
+  have hb := h.stack.busyOn_eq
+  unfold ApplyGoal
+  simp only [MCfg.apply, SCfg.apply, ← hb]
+  by_cases hc : busyOn MFrame.isIterOn ms a = true ∨ busyOn MFrame.isIterOn ms b = true
+  · simp only [if_pos hc]
+    exact ⟨trivial, fun _ => h⟩
+  · simp only [if_neg hc]
+    refine ⟨trivial, fun _ => ?_⟩
+    refine h.update h.nextId rfl rfl rfl rfl ?_ ?_
+    · intro l
+      show Rep (upd (upd m.lists a (m.lists b)) b (m.lists a) l)
+        (upd (upd s.lists a (s.lists b)) b (s.lists a) l) m.nextId
+      rw [upd_get, upd_get, upd_get, upd_get]
+      split
+      · exact h.rep a
+      · split
+        · exact h.rep b
+        · exact h.rep l
+    · intro l n cap rest hbusy ok
+      show FrameOK (upd (upd m.lists a (m.lists b)) b (m.lists a) l)
+        (upd (upd s.lists a (s.lists b)) b (s.lists a) l) m.nextId n cap rest
+      have h1 : l ≠ b := fun e => hc (Or.inr (e ▸ hbusy))
+      have h2 : l ≠ a := fun e => hc (Or.inl (e ▸ hbusy))
+      rw [upd_get, upd_get, upd_get, upd_get, if_neg h1, if_neg h2, if_neg h1, if_neg h2]
+      exact ok
+
+theorem sim_apply {m s ms ss} (h : SimOn m s ms ss) (cmd : Cmd) : ApplyGoal m s ms ss cmd := by
+  cases cmd with
+  | append l cb => exact sim_apply_append h l cb
+  | prepend l cb => exact sim_apply_prepend h l cb
+  | insert l cb b => exact sim_apply_insert h l cb b
+  | remove l hd => exact sim_apply_remove h l hd
+  | owns l hd => exact sim_apply_owns h l hd
+  | empty l => exact sim_apply_empty h l
+  | invoke l arg => exact ⟨rfl, fun _ => h⟩
+  | enum l arg => exact ⟨rfl, fun _ => h⟩
+  | copyAssign dst src => exact sim_apply_copyAssign h dst src
+  | moveAssign dst src => exact sim_apply_moveAssign h dst src
+  | swap a b => exact sim_apply_swap h a b
+  | setCounter l k => exact sim_apply_setCounter h l k
+
+theorem sim_applyStep {m s} (h : Sim m s) {cmd k rest srest}
+    (hst : StackSim m s rest srest) (hw : (m.applyStep cmd k rest).wraps = m.wraps) :
+    Sim (m.applyStep cmd k rest) (s.applyStep cmd k srest) := by
+  obtain ⟨hr, hs⟩ := sim_apply (h.on.sub hst) cmd
+  have hs := hs hw
+  unfold MCfg.applyStep SCfg.applyStep
+  refine hs.toSim rfl rfl rfl rfl rfl rfl ?_ ?_
+  · simp [hr, hs.trace]
+  · show StackSim _ _ (_ :: rest) (_ :: srest)
+    rw [hr]
+    exact .cons (.prog _) hs.stack
+
+/-! ### one step -/
+
+def StepGoal (beh : Beh) (m : MCfg) (s : SCfg) : Prop :=
+  match MCfg.step beh m, SCfg.step beh s with
+  | none, none => True
+  | some m', some s' => m'.wraps = m.wraps → Sim m' s'
+  | _, _ => False
+
+theorem stepGoal_none {beh m s} (h1 : MCfg.step beh m = none) (h2 : SCfg.step beh s = none) :
+    StepGoal beh m s := by
+  unfold StepGoal; rw [h1, h2]; trivial
+
+theorem stepGoal_some {beh m s m' s'} (h1 : MCfg.step beh m = some m') (h2 : SCfg.step beh s = some s')
+    (h : m'.wraps = m.wraps → Sim m' s') : StepGoal beh m s := by
+  unfold StepGoal; rw [h1, h2]; exact h
+
+theorem stepGoal (beh : Beh) {m : MCfg} {s : SCfg} (h : Sim m s) : StepGoal beh m s := by
+  have hst := h.stack
+  rcases hm : m.stack with _ | ⟨f, rest⟩
+  · rw [hm] at hst
+    exact stepGoal_none (MCfg.step_nil hm) (SCfg.step_nil hst.nil_inv)
+  · rw [hm] at hst
+    obtain ⟨b, srest, hs, hf, ht⟩ := hst.cons_inv
+    cases f with
+    | wait k =>
+      have := hf.wait_inv; subst this
+      exact stepGoal_none (MCfg.step_wait hm) (SCfg.step_wait hs)
+    | iter l n cap arg ho =>
+      obtain ⟨r, rfl, ok⟩ := hf.iter_inv
+      exact stepGoal_none (MCfg.step_iter hm) (SCfg.step_iter hs)
+    | prog p =>
+      have := hf.prog_inv; subst this
+      cases p with
+      | ret v =>
+        cases ht with
+        | nil =>
+          exact stepGoal_some (MCfg.step_ret_nil hm) (SCfg.step_ret_nil hs)
+            (fun _ => h.on.toSim rfl rfl rfl rfl rfl rfl h.trace .nil)
+        | cons hg hbelow =>
+          cases hg with
+          | prog q =>
+            exact stepGoal_some (MCfg.step_ret_prog hm) (SCfg.step_ret_prog hs)
+              (fun _ => h.on.toSim rfl rfl rfl rfl rfl rfl h.trace (.cons (.prog q) hbelow))
+          | wait k =>
+            exact stepGoal_some (MCfg.step_ret_wait hm) (SCfg.step_ret_wait hs)
+              (fun _ => h.on.toSim rfl rfl rfl rfl rfl rfl h.trace (.cons (.wait k) hbelow))
+          | iter l n cap arg honour rest ok =>
+            have e1 := MCfg.step_ret_iter (beh := beh) hm
+            have e2 := SCfg.step_ret_iter (beh := beh) hs
+            cases hc : (honour && !v) with
+            | true =>
+              simp only [hc, ↓reduceIte] at e1 e2
+              exact stepGoal_some e1 e2 (fun _ => sim_deliver (h.on.sub hbelow) _)
+            | false =>
+              simp only [hc, Bool.false_eq_true, ↓reduceIte] at e1 e2
+              exact stepGoal_some e1 e2 (fun _ =>
+                sim_seekCall beh (h.on.sub hbelow) l _ cap arg honour rest (frame_step (h.rep l) ok))
+      | op cmd k =>
+        have key : (∀ l a, cmd ≠ .invoke l a) → (∀ l a, cmd ≠ .enum l a) → StepGoal beh m s :=
+          fun h1 h2 => stepGoal_some (MCfg.step_op hm h1 h2) (SCfg.step_op hs h1 h2)
+            (fun hw => sim_applyStep h ht hw)
+        cases cmd with
+        | invoke l arg =>
+          exact stepGoal_some (MCfg.step_invoke hm) (SCfg.step_invoke hs) (fun _ =>
+            sim_seekCall beh (h.on.sub (.cons (.wait k) ht)) l _ _ arg false (s.lists l)
+              (frame_start (h.rep l)))
+        | enum l arg =>
+          exact stepGoal_some (MCfg.step_enum hm) (SCfg.step_enum hs) (fun _ =>
+            sim_seekCall beh (h.on.sub (.cons (.wait k) ht)) l _ _ arg true (s.lists l)
+              (frame_start (h.rep l)))
+        | _ => exact key (by intros; simp) (by intros; simp)
+
 /-- One step in lock-step: the Spec steps iff the Model steps; if the step did not wrap a
     generation counter the results are again related. -/
 theorem sim_step (beh : Beh) {m : MCfg} {s : SCfg} (h : Sim m s) :
     match MCfg.step beh m, SCfg.step beh s with
     | none, none => True
     | some m', some s' => m'.wraps = m.wraps → Sim m' s'
-    | _, _ => False := by
-  sorry
+    | _, _ => False :=
+  stepGoal beh h
+
+/-- a step either leaves the list objects alone or is a command -/
+theorem MCfg.step_cases {beh : Beh} {m m' : MCfg} (h : MCfg.step beh m = some m') :
+    (m'.lists = m.lists ∧ m'.nextId = m.nextId ∧ m'.wraps = m.wraps) ∨
+    ∃ busy cmd, m'.lists = (m.apply busy cmd).1.lists ∧ m'.nextId = (m.apply busy cmd).1.nextId ∧
+      m'.wraps = (m.apply busy cmd).1.wraps := by
+  unfold MCfg.step at h
+  split at h
+  · cases h
+  · split at h <;> (cases h; left; simp)
+  · cases h; left; simp
+  · cases h; left; simp
+  · cases h; left; simp
+  · cases h; right; exact ⟨_, _, rfl, rfl, rfl⟩
+  · cases h
+  · cases h
+
+theorem MCfg.apply_wraps_le (m : MCfg) (busy : Nat → Bool) (cmd : Cmd) :
+    m.wraps ≤ (m.apply busy cmd).1.wraps := by
+  cases cmd <;> simp only [MCfg.apply] <;> (repeat' split) <;> simp
 
 /-- wraps never decrease -/
 theorem wraps_mono_step (beh : Beh) {m m' : MCfg} (h : MCfg.step beh m = some m') : m.wraps ≤ m'.wraps := by
-  sorry
+  rcases MCfg.step_cases h with ⟨_, _, hw⟩ | ⟨busy, cmd, _, _, hw⟩
+  · rw [hw]; exact Nat.le_refl _
+  · rw [hw]; exact MCfg.apply_wraps_le m busy cmd
 
 theorem wraps_mono_runN (beh : Beh) (n : Nat) (m : MCfg) : m.wraps ≤ (MCfg.runN beh n m).1.wraps := by
-  sorry
+  induction n generalizing m with
+  | zero => exact Nat.le_refl _
+  | succ n ih =>
+    unfold MCfg.runN
+    cases hm : MCfg.step beh m with
+    | none => exact Nat.le_refl _
+    | some m' => exact Nat.le_trans (wraps_mono_step beh hm) (ih m')
 
 /-- `n` steps in lock-step -/
 theorem sim_runN (beh : Beh) (n : Nat) {m : MCfg} {s : SCfg} (h : Sim m s)
     (nowrap : (MCfg.runN beh n m).1.wraps = m.wraps) :
     Sim (MCfg.runN beh n m).1 (SCfg.runN beh n s).1 ∧ (MCfg.runN beh n m).2 = (SCfg.runN beh n s).2 := by
-  sorry
+  induction n generalizing m s with
+  | zero => exact ⟨h, h.stack.isEmpty_eq⟩
+  | succ n ih =>
+    have hs := stepGoal beh h
+    unfold StepGoal at hs
+    unfold MCfg.runN SCfg.runN
+    unfold MCfg.runN at nowrap
+    cases hm : MCfg.step beh m with
+    | none =>
+      cases hs' : SCfg.step beh s with
+      | none => exact ⟨h, h.stack.isEmpty_eq⟩
+      | some s' => rw [hm, hs'] at hs; exact hs.elim
+    | some m' =>
+      cases hs' : SCfg.step beh s with
+      | none => rw [hm, hs'] at hs; exact hs.elim
+      | some s' =>
+        rw [hm, hs'] at hs
+        rw [hm] at nowrap
+        have w1 := wraps_mono_step beh hm
+        have w2 := wraps_mono_runN beh n m'
+        simp only at nowrap hs ⊢
+        exact ih (hs (by omega)) (by omega)
+
+/-! ### well-formedness alone (also across a wrap) -/
+
+theorem minv_apply {m : MCfg} (h : MInv m) (busy : Nat → Bool) (cmd : Cmd) :
+    ∀ l, ∃ SL, Rep ((m.apply busy cmd).1.lists l) SL (m.apply busy cmd).1.nextId := by
+  have upd1 : ∀ (l : Nat) (x : CL) (b' : Nat), m.nextId ≤ b' → (∃ SL, Rep x SL b') →
+      ∀ l', ∃ SL, Rep (upd m.lists l x l') SL b' := by
+    intro l x b' hb hx l'
+    rw [upd_get]
+    split
+    · exact hx
+    · obtain ⟨SL, r⟩ := h l'
+      exact ⟨SL, r.mono hb⟩
+  cases cmd with
+  | append l cb =>
+    obtain ⟨SL, r⟩ := h l
+    exact upd1 l _ _ (Nat.le_succ _) ⟨_, rep_append r cb⟩
+  | prepend l cb =>
+    obtain ⟨SL, r⟩ := h l
+    exact upd1 l _ _ (Nat.le_succ _) ⟨_, rep_prepend r cb⟩
+  | insert l cb b =>
+    simp only [MCfg.apply]
+    split
+    · exact h
+    · obtain ⟨SL, r⟩ := h l
+      exact upd1 l _ _ (Nat.le_succ _) ⟨_, rep_insert r cb b⟩
+  | remove l hd =>
+    simp only [MCfg.apply]
+    split
+    · exact h
+    · obtain ⟨SL, r⟩ := h l
+      exact upd1 l _ _ (Nat.le_refl _) ⟨_, (rep_remove r hd).1⟩
+  | owns l hd =>
+    simp only [MCfg.apply]
+    split <;> exact h
+  | empty l => exact h
+  | invoke l arg => exact h
+  | enum l arg => exact h
+  | copyAssign dst src =>
+    simp only [MCfg.apply]
+    split
+    · exact h
+    · obtain ⟨SL, r⟩ := h src
+      have hcl := rep_clone r
+      refine upd1 dst _ _ (Nat.le_add_right _ _) ⟨SL.cloneWith m.nextId, ?_⟩
+      rw [MCfg.fuel, hcl.2]
+      exact hcl.1
+  | moveAssign dst src =>
+    simp only [MCfg.apply]
+    split
+    · exact h
+    · intro l
+      show ∃ SL, Rep (upd (upd m.lists dst (m.lists src)) src _ l) SL m.nextId
+      rw [upd_get, upd_get]
+      split
+      · obtain ⟨SL, r⟩ := h src
+        exact ⟨_, rep_moved_from r⟩
+      · split
+        · exact h src
+        · exact h l
+  | swap a b =>
+    simp only [MCfg.apply]
+    split
+    · exact h
+    · intro l
+      show ∃ SL, Rep (upd (upd m.lists a (m.lists b)) b (m.lists a) l) SL m.nextId
+      rw [upd_get, upd_get]
+      split
+      · exact h a
+      · split
+        · exact h b
+        · exact h l
+  | setCounter l k =>
+    obtain ⟨SL, r⟩ := h l
+    exact upd1 l _ _ (Nat.le_refl _) ⟨_, rep_setCounter r k⟩
 
 /-- well-formedness of every list object is preserved by every step, wrap or not -/
 theorem minv_step (beh : Beh) {m m' : MCfg} (h : MInv m) (st : MCfg.step beh m = some m') : MInv m' := by
-  sorry
+  rcases MCfg.step_cases st with ⟨hl, hn, _⟩ | ⟨busy, cmd, hl, hn, _⟩
+  · intro l; rw [hl, hn]; exact h l
+  · intro l; rw [hl, hn]; exact minv_apply h busy cmd l
 
 theorem minv_runN (beh : Beh) (n : Nat) {m : MCfg} (h : MInv m) : MInv (MCfg.runN beh n m).1 := by
-  sorry
+  induction n generalizing m with
+  | zero => exact h
+  | succ n ih =>
+    unfold MCfg.runN
+    cases hm : MCfg.step beh m with
+    | none => exact h
+    | some m' => exact ih (minv_step beh h hm)
 
 /-- no null dereference is ever recorded -/
 theorem minv_no_ub {m : MCfg} (h : MInv m) (l : Nat) : (m.lists l).ub = false := by
